@@ -31,6 +31,15 @@ Proof.
   intros H. exists st, cur, done. split; [reflexivity|]. apply negb_true_iff, bool_decide_eq_false in H. exact H.
 Qed.
 
+Lemma leaves_trace_flush_spec ord d es k :
+  leaves_trace_flush ord d es k = true ->
+  exists st cur done, run_until_crash ord (init_state d []) es k = Crashed st cur done /\
+    rollback_flush ord st (sum_log (run_log ord (init_state d []) es k)) ≠ Some d.
+Proof.
+  unfold leaves_trace_flush. destruct (run_until_crash ord (init_state d []) es k) as [st cur done|st]; [|discriminate].
+  intros H. exists st, cur, done. split; [reflexivity|]. apply negb_true_iff, bool_decide_eq_false in H. exact H.
+Qed.
+
 Lemma rollback_raises_spec ord d es k :
   rollback_raises ord d es k = true ->
   exists st cur done, run_until_crash ord (init_state d []) es k = Crashed st cur done /\ rollback ord 0 st = None.
@@ -39,21 +48,22 @@ Proof.
   intros H. exists st, cur, done. split; [reflexivity|]. apply bool_decide_eq_true in H. exact H.
 Qed.
 
-(* (i) mutation before undo append: BulkUpdateRecord after its first cell, BulkRemoveRecord after its first row *)
+(* (i) mutation before undo append: BulkRemoveRecord after its first row (BulkUpdateRecord was repaired by 6f648c6:
+   regression lemmas below) *)
 Definition w_update : list event := [EDoc (BulkUpdateRecord T [1; 2] [(A, [10; 20]); (C, [5; 6])])].
 Definition w_remove : list event := [EDoc (BulkRemoveRecord T [1; 2])].
-Lemma w_update_trace : leaves_trace w_ord w_doc w_update 1 = true.
+Lemma w_remove_trace : leaves_trace_flush w_ord w_doc w_remove 1 = true.
 Proof. vm_compute. reflexivity. Qed.
-Lemma w_update_every_inner_point : forallb (leaves_trace w_ord w_doc w_update) (seq 1 4) = true.
+(* regression: no crash point of BulkUpdateRecord leaves a trace any more, nor does the unknown-column KeyError *)
+Lemma w_update_no_trace : forallb (fun k => negb (leaves_trace_flush w_ord w_doc w_update k)) (seq 0 7) = true.
 Proof. vm_compute. reflexivity. Qed.
-Lemma w_remove_trace : leaves_trace w_ord w_doc w_remove 1 = true.
-Proof. vm_compute. reflexivity. Qed.
-(* ... also without any injected fault: the second column does not exist (KeyError after A was written) *)
 Definition w_update_keyerror : list event := [EDoc (BulkUpdateRecord T [1] [(A, [77]); (9, [1])])].
-Lemma w_update_keyerror_trace : leaves_trace w_ord w_doc w_update_keyerror 5 = true.
+Lemma w_update_keyerror_no_trace : leaves_trace_flush w_ord w_doc w_update_keyerror 5 = false.
 Proof. vm_compute. reflexivity. Qed.
 
-(* (ii) a calc delta pending in the summary: [UpdateRecord T 1 {A:10}, CopyFromColumn T B C, <raises>] *)
+(* (ii) a calc delta pending in the summary: [UpdateRecord T 1 {A:10}, CopyFromColumn T B C, <raises>].
+   Without the flush (the bare _undo_to_checkpoint, as used by nested checkpoints) it survives; with the flush that
+   apply_user_actions performs since f80d48c it is reverted, at every event boundary of the bundle. *)
 Definition w_calc : list event :=
   [EDoc (UpdateRecord T 1 [(A, 10)]); ECalc T B [(1, 20)]; EDoc (BulkUpdateRecord T [1; 2] [(C, [20; 4])])].
 Lemma w_calc_trace : leaves_trace w_ord w_doc w_calc 7 = true.
@@ -62,16 +72,22 @@ Lemma w_calc_pending :
   match run_until_crash w_ord (init_state w_doc []) w_calc 7 with
   | Crashed st None [] => ms_pending st = [(T, B, 1, 2, 20)] | _ => False end.
 Proof. vm_compute. reflexivity. Qed.
+Lemma w_calc_flush_no_trace :
+  forallb (fun k => negb (leaves_trace_flush w_ord w_doc w_calc k)) [0; 2; 4; 5; 6; 7]%nat = true.
+Proof. vm_compute. reflexivity. Qed.
+(* ... but a crash between the calc's cell write and its add_changes still leaves the cell (nothing recorded yet) *)
+Lemma w_calc_inside_trace : leaves_trace_flush w_ord w_doc w_calc 3 = true.
+Proof. vm_compute. reflexivity. Qed.
 
 (* (iii) schema action crashing after rebuild_usercode, before its undo: the schema restore re-creates the
    destroyed column empty *)
 Definition w_remove_column : list event := [EDoc (RemoveColumn T A)].
-Lemma w_remove_column_trace : leaves_trace w_ord w_doc w_remove_column 3 = true.
+Lemma w_remove_column_trace : leaves_trace_flush w_ord w_doc w_remove_column 3 = true.
 Proof. vm_compute. reflexivity. Qed.
 Definition w_to_formula : list event := [EDoc (ModifyColumn T A (ColMod None (Some true) (Some 9) None))].
-Lemma w_to_formula_trace7 : leaves_trace w_ord w_doc w_to_formula 7 = true.
+Lemma w_to_formula_trace7 : leaves_trace_flush w_ord w_doc w_to_formula 7 = true.
 Proof. vm_compute. reflexivity. Qed.
-Lemma w_to_formula_trace : forallb (leaves_trace w_ord w_doc w_to_formula) (seq 3 5) = true.
+Lemma w_to_formula_trace : forallb (leaves_trace_flush w_ord w_doc w_to_formula) (seq 3 5) = true.
 Proof. vm_compute. reflexivity. Qed.
 
 (* (iv) schema action crashing after its undo append: restore + undo both revert it, the rollback raises and the
@@ -79,19 +95,21 @@ Proof. vm_compute. reflexivity. Qed.
 Definition w_add_column : list event := [EDoc (UpdateRecord T 1 [(A, 10)]); EDoc (AddColumn T N ci_int)].
 Lemma w_add_column_raises : rollback_raises w_ord w_doc w_add_column 6 = true.
 Proof. vm_compute. reflexivity. Qed.
+Lemma w_add_column_flush_raises :
+  match run_until_crash w_ord (init_state w_doc []) w_add_column 6 with
+  | Crashed st _ _ => rollback_flush w_ord st (sum_log (run_log w_ord (init_state w_doc []) w_add_column 6)) = None
+  | Finished _ => False end.
+Proof. vm_compute. reflexivity. Qed.
 
 (* (v) ReplaceTableData: its undo reloads the data columns only, formula column B comes back empty *)
 Definition w_replace : list event := [EDoc (ReplaceTableData T [3; 4] [(A, [5; 6])])].
-Lemma w_replace_trace : leaves_trace w_ord w_doc w_replace 11 = true.
+Lemma w_replace_trace : leaves_trace_flush w_ord w_doc w_replace 11 = true.
 Proof. vm_compute. reflexivity. Qed.
 
 (* control: the same bundles crashed at an undo-first point, or completed undo-first actions, leave no trace *)
 Definition w_add : list event := [EDoc (BulkAddRecord T [3; 4] [(A, [5; 6])])].
-Lemma w_add_no_trace : forallb (fun k => negb (leaves_trace w_ord w_doc w_add k)) (seq 0 8) = true.
+Lemma w_add_no_trace : forallb (fun k => negb (leaves_trace_flush w_ord w_doc w_add k)) (seq 0 8) = true.
 Proof. vm_compute. reflexivity. Qed.
-Lemma w_update_boundaries_no_trace :
-  leaves_trace w_ord w_doc w_update 0 = false /\ leaves_trace w_ord w_doc w_update 5 = false.
-Proof. vm_compute. split; reflexivity. Qed.
 
 (* C29: a nested recalculation of another dirty cell during a read-only evaluation is not a doc action: nothing is
    appended to the undo list, so the rollback at get_formula_value's checkpoint does not revert it. *)
